@@ -12,16 +12,16 @@ import (
 
 // C19: command-line contract.
 type CLICase struct {
-	What    string   `json:"what"`    // args | same-as-api | comment-encoding | failing-run
-	Src     []byte   `json:"src"`     // source file contents (nil: no source file is created)
-	Args    []string `json:"args"`    // nil = [in.nas out.bin]
-	Setup   string   `json:"setup"`   // "" | srcdir (source path is a directory) | outdir (output path is a directory) | nodir (output in a missing directory) | srcunder (source path below a regular file)
-	Prefill []byte   `json:"prefill"` // destination contents before the run
-	WantExit int     `json:"want_exit"` // -1 = any non-zero
-	Ref     []byte   `json:"ref"`     // expected output bytes on success (nil = not compared)
-	RefSrc  []byte   `json:"ref_src"` // comment-encoding: the comment-free source whose image is the reference
-	Cell_   string   `json:"cell"`
-	pre     []CLIRun
+	What     string   `json:"what"`      // args | same-as-api | comment-encoding | failing-run
+	Src      []byte   `json:"src"`       // source file contents (nil: no source file is created)
+	Args     []string `json:"args"`      // nil = [in.nas out.bin]
+	Setup    string   `json:"setup"`     // "" | srcdir (source path is a directory) | outdir (output path is a directory) | nodir (output in a missing directory) | srcunder (source path below a regular file)
+	Prefill  []byte   `json:"prefill"`   // destination contents before the run
+	WantExit int      `json:"want_exit"` // -1 = any non-zero
+	Ref      []byte   `json:"ref"`       // expected output bytes on success (nil = not compared)
+	RefSrc   []byte   `json:"ref_src"`   // comment-encoding: the comment-free source whose image is the reference
+	Cell_    string   `json:"cell"`
+	pre      []CLIRun
 }
 
 func (c *CLICase) Kind() string { return "cli" }
@@ -132,16 +132,16 @@ func init() { registerKind("cli", func() Case { return &CLICase{} }) }
 
 // Shift_JIS comment material
 var sjisChunks = [][]byte{
-	{0x83, 0x5c},             // ソ  (trail byte 0x5c)
-	{0x95, 0x5c},             // 表
-	{0x94, 0x5c},             // 能
-	{0x8f, 0x5c},             // 十
-	{0x97, 0x5c},             // 予
-	{0x83, 0x7c},             // ポ  (trail byte 0x7c)
-	{0x82, 0xa0, 0x82, 0xa2}, // あい
-	{0xb1, 0xb2, 0xb3, 0xdf}, // half-width katakana
+	{0x83, 0x5c},                         // ソ  (trail byte 0x5c)
+	{0x95, 0x5c},                         // 表
+	{0x94, 0x5c},                         // 能
+	{0x8f, 0x5c},                         // 十
+	{0x97, 0x5c},                         // 予
+	{0x83, 0x7c},                         // ポ  (trail byte 0x7c)
+	{0x82, 0xa0, 0x82, 0xa2},             // あい
+	{0xb1, 0xb2, 0xb3, 0xdf},             // half-width katakana
 	{0x93, 0xfa, 0x96, 0x7b, 0x8c, 0xea}, // 日本語
-	{0x81, 0x40},             // ideographic space
+	{0x81, 0x40},                         // ideographic space
 	{0x88, 0xea, 0x97, 0x97, 0x95, 0x5c}, // 一覧表
 }
 
@@ -246,6 +246,9 @@ func init() {
 			if i%2 == 0 {
 				add(&CLICase{What: "comment-encoding", Src: commented(r, base, false), RefSrc: []byte(base), Cell_: "comments utf-8 " + kind})
 			}
+		}
+		for name, src := range loadCorpus(env) {
+			add(&CLICase{What: "same-as-api", Src: []byte(src), Cell_: "same-as-api book " + name})
 		}
 		// every Shift_JIS chunk at the very end of a comment, before LF / CRLF, followed by code
 		for _, ch := range sjisChunks {
